@@ -8,6 +8,7 @@ ops (JSON lists):
   ['rmgone', k]                 remove(a child that was removed / replaced earlier)   (stale handle, must fail cleanly)
   ['rep', k, name]              replace_child(live[k % len(live)], new(name))
   ['repf', k, name]             replace_child(lambda c: c is live[k], new(name))      (predicate form)
+  ['repi', k, name]             replace_child(lambda c: c.name == live[k].name, new(name), index=position of live[k] among them)
   ['set', name, 'el'|'val'|'none']   e.xml_<name> = element / value / None
   ['str', ic]                   to_string(intelligent_choice=ic)
 """
@@ -103,7 +104,7 @@ def replay(cls, t, hist, props=(), labels=None):
             else:
                 target = live[op[1] % len(live)]
                 res = lib.call(e.replace_child, target, target)
-        elif kind in ('rep', 'repf'):
+        elif kind in ('rep', 'repf', 'repi'):
             if not live:
                 skip = True
             else:
@@ -111,6 +112,10 @@ def replay(cls, t, hist, props=(), labels=None):
                 newkid = new_child(op[2])
                 if kind == 'rep':
                     res = lib.call(e.replace_child, target, newkid)
+                elif kind == 'repi':
+                    same = [c for c in e.get_children(True) if c.name == target.name]
+                    pos = next((j for j, c in enumerate(same) if c is target), 0)
+                    res = lib.call(e.replace_child, (lambda c, _n=target.name: c.name == _n), newkid, pos)
                 else:
                     res = lib.call(e.replace_child, (lambda c, _t=target: c is _t), newkid)
         elif kind == 'set':
@@ -149,7 +154,7 @@ def replay(cls, t, hist, props=(), labels=None):
             elif kind == 'rmgone':
                 if want06:
                     r.viol.append(('C06', 'stale-remove-accepted', i, {'child': target.name}))
-            elif kind in ('rep', 'repf'):
+            elif kind in ('rep', 'repf', 'repi'):
                 live[live.index(target)] = newkid; r.gone.append(target); r.labels_of[id(newkid)] = label
             elif kind == 'set':
                 if op[2] == 'el':
@@ -245,6 +250,19 @@ def c06_invariants(e, live, gone):
     for c in gone:
         if c.get_parent() is not None:
             return ('removed-child-has-parent', {'child': c.name})
+    # the other public accessors must tell the same story as the two views
+    for c in live:
+        if c.up is not e:
+            return ('child-parent-wrong', {'child': c.name, 'accessor': 'up'})
+    for cn in {c.__class__.__name__ for c in live}:
+        if [id(x) for x in e.find_children(cn, ordered=True)] != [id(x) for x in o if x.__class__.__name__ == cn] or \
+                [id(x) for x in e.find_children(cn)] != [id(x) for x in u if x.__class__.__name__ == cn]:
+            return ('accessor-disagrees-with-views', {'accessor': 'find_children', 'class': cn})
+        first = next(x for x in u if x.__class__.__name__ == cn)
+        if e.find_child(cn) is not first:
+            return ('accessor-disagrees-with-views', {'accessor': 'find_child', 'class': cn})
+    if live and not {c.name for c in live} <= set(e.possible_children_names):
+        return ('accessor-disagrees-with-views', {'accessor': 'possible_children_names'})
     return None
 
 
@@ -401,7 +419,7 @@ def twin_c11(cls, t, hist, r=None):
 def mech_class(t, hist, status):
     """mechanism class of a (minimal) witness, by precedence (DESIGN 6.2)"""
     for op, s in zip(hist, status):
-        if op[0] in ('rep', 'repf') and s == 'ok':
+        if op[0] in ('rep', 'repf', 'repi') and s == 'ok':
             return 'replace'
     if any(s not in ('ok', 'skip') for s in status):
         return 'failed-op'
@@ -433,7 +451,7 @@ def case_string(hist):
             out.append('rmgone:%d' % op[1])
         elif op[0] == 'repself':
             out.append('repself:%d' % op[1])
-        elif op[0] in ('rep', 'repf'):
+        elif op[0] in ('rep', 'repf', 'repi'):
             out.append('%s:%d>%s' % (op[0], op[1], op[2]))
         elif op[0] == 'set':
             out.append('set:%s=%s' % (op[1], op[2]))
